@@ -2057,6 +2057,10 @@ func genC20(r *rng, tier string, emit func(string)) {
 			}
 			return 12
 		}
+		if name == "poolkeyid" { // rounds (one pool topology per round, about 4 s each in the race build when the machine is idle - the
+			// thorough tier runs more ops, not longer ones: a conc op has 120 s; c20poolkid.go)
+			return 2
+		}
 		if name == "tmplissuers" || name == "csrtmpl" { // rounds (one shared template per round)
 			if thorough {
 				return 20
